@@ -80,6 +80,74 @@ Definition D (h : N) (rs : list (N * bool * bool)) : nat :=      (* known calls 
 Definition calls (h : N) (rs : list (N * bool * bool)) : nat :=
   length (filter (fun r => N.eqb h (fst (fst r))) rs).
 
+(* ---- refinement of [idx]: the in-memory indexes of MasterIndex and their life cycle ----
+   mi.idx[0] is the merged final index; new packs go into the first non-final index (or a new one);
+   finalizeFullIndexes / finalizeNotFinalIndexes: open -> final without id (upload in flight);
+   Index.SaveIndex completes: id set; MergeFinalIndexes: final indexes WITH an id are merged into
+   idx[0], non-final ones and final ones without id are kept.  Lookups (Has / AddPending) range over
+   all of them whatever their state. *)
+Inductive istate := IOpen | IFinalNoId | IFinalSaved.
+Definition mindex := list (istate * list N).
+Definition flat (m : mindex) : list N := concat (map snd m).
+Definition is_open (x : istate * list N) : bool := match fst x with IOpen => true | _ => false end.
+Definition is_saved (x : istate * list N) : bool := match fst x with IFinalSaved => true | _ => false end.
+
+(* storePack: into the first non-final index, else a new index at the end *)
+Fixpoint store_into (m : mindex) (bs : list N) : mindex :=
+  match m with
+  | [] => [(IOpen, bs)]
+  | x :: t => if is_open x then (IOpen, bs ++ snd x) :: t else x :: store_into t bs
+  end.
+Fixpoint set_state_at (k : nat) (from to : istate) (m : mindex) : mindex :=
+  match m, k with
+  | [], _ => []
+  | x :: t, O => (match fst x, from with
+                  | IOpen, IOpen | IFinalNoId, IFinalNoId => (to, snd x)
+                  | _, _ => x
+                  end) :: t
+  | x :: t, S k' => x :: set_state_at k' from to t
+  end.
+Definition finalize_at (k : nat) (m : mindex) : mindex := set_state_at k IOpen IFinalNoId m.
+Definition saved_at (k : nat) (m : mindex) : mindex := set_state_at k IFinalNoId IFinalSaved m.
+(* MergeFinalIndexes *)
+Definition merge_final (m : mindex) : mindex :=
+  match m with
+  | [] => []
+  | x0 :: t => (fst x0, snd x0 ++ flat (filter is_saved t)) :: filter (fun x => negb (is_saved x)) t
+  end.
+(* NOT the code: a merge that forgets final indexes whose upload is still in flight *)
+Definition merge_final_dropping_unsaved (m : mindex) : mindex :=
+  match m with
+  | [] => []
+  | x0 :: t => (fst x0, snd x0 ++ flat (filter is_saved t)) :: filter is_open t
+  end.
+
+(* refined system: the abstract state plus the structured indexes *)
+Inductive rev :=
+| RE (e : ev)            (* an event of the abstract system; EPack also enters the pack into an index *)
+| RFinalize (k : nat)
+| RSaved (k : nat)
+| RMerge.
+Definition rstep (sm : state * mindex) (e : rev) : state * mindex :=
+  let '(s, m) := sm in
+  match e with
+  | RE (EPack bs) =>
+      match take_all bs (packer s) with
+      | Some _ => (step s (EPack bs), store_into m bs)
+      | None => (s, m)
+      end
+  | RE e => (step s e, m)
+  | RFinalize k => (s, finalize_at k m)
+  | RSaved k => (s, saved_at k m)
+  | RMerge => (s, merge_final m)
+  end.
+Definition rrun (sm : state * mindex) (evs : list rev) : state * mindex := fold_left rstep evs sm.
+Definition rinit (idx0 : list N) : state * mindex := (init idx0, [(IFinalSaved, idx0)]).
+(* what AddPending really consults *)
+Definition rknown (sm : state * mindex) (h : N) : bool := mem h (pend (fst sm)) || mem h (flat (snd sm)).
+Definition abs_events (evs : list rev) : list ev :=
+  flat_map (fun e => match e with RE e => [e] | _ => [] end) evs.
+
 (* NOT the code: storePack split into two critical sections (pending removed first, index entry added
    later).  Only used to show that the atomicity of EPack is what the theorems rest on. *)
 Inductive xev :=
